@@ -809,14 +809,48 @@ func (p *Prog) rejectEdges(fn *ssa.Function, ifs []ifInfo) []struct {
 } {
 	_, succ := p.returnsOf(fn)
 	succBlocks := map[*ssa.BasicBlock]bool{}
+	// a return fed by phis of its own block succeeds or fails by the edge taken into it
+	merged := map[*ssa.BasicBlock]map[*ssa.BasicBlock]bool{} // return block -> predecessor -> brings a possibly-nil error
+	x := p.tx(fn)
+	for _, ret := range allReturns(fn) {
+		if _, isTail := p.tailReturn(ret); isTail {
+			continue
+		}
+		if mes := p.mergedExits(x, ret); mes != nil {
+			m := map[*ssa.BasicBlock]bool{}
+			for _, me := range mes {
+				if me.kind != "error" {
+					m[me.pred] = true
+				}
+			}
+			merged[ret.Block()] = m
+		}
+	}
 	for _, s := range succ {
+		if s.Parent() == fn && merged[s.Block()] != nil {
+			if _, isRet := s.(*ssa.Return); isRet {
+				continue // judged by edge below
+			}
+		}
 		succBlocks[s.Block()] = true
 	}
-	canSucceed := func(ns []Node) bool {
-		reach := reachFromNodes(ns, nil)
+	canSucceedFrom := func(b *ssa.BasicBlock, slot int, site *spliceSite) bool {
+		if site == nil && slot < len(b.Succs) {
+			if m := merged[b.Succs[slot]]; m != nil && m[b] {
+				return true // this very edge enters the merged return with a possibly-nil error
+			}
+		}
+		reach := reachFromNodes(enter(b, slot, site, nil), nil)
 		for rb := range reach {
 			if succBlocks[rb] {
 				return true
+			}
+			if rb.Parent() == fn {
+				for _, sb := range rb.Succs {
+					if m := merged[sb]; m != nil && m[rb] {
+						return true
+					}
+				}
 			}
 		}
 		return false
@@ -835,7 +869,7 @@ func (p *Prog) rejectEdges(fn *ssa.Function, ifs []ifInfo) []struct {
 		if ii.site != offGraph && p.guardDetour(b, ctx) != nil {
 			continue // decided by the helper's own branches, which are in ifs
 		}
-		c0, c1 := canSucceed(enter(b, 0, ii.site, nil)), canSucceed(enter(b, 1, ii.site, nil))
+		c0, c1 := canSucceedFrom(b, 0, ii.site), canSucceedFrom(b, 1, ii.site)
 		if c0 == c1 {
 			continue
 		}
